@@ -248,7 +248,7 @@ class SigmaFilter(SigmaRuleBase):
         # copy of the filter detections: processing pipelines modify detection items in place, so
         # sharing them would apply transformations once per rule the filter was applied to.
         for original_cond_name, condition in self.filter.detections.items():
-            rule.detection.detections[prefix + "_" + original_cond_name] = copy.deepcopy(condition)
+            rule.detection.detections[f"{prefix}_{original_cond_name}"] = copy.deepcopy(condition)
 
         # Rewrite the filter condition string so that every identifier/pattern token is
         # prefixed.  This handles:
